@@ -14,7 +14,7 @@ import (
 func init() {
 	register(&Property{
 		ID:        "C09",
-		Technique: "typestate over the reader loop (size test before every read, after every append, never between a read and the next parse), guard dominance, compiler BCE report backed by the difference-constraint bounds prover",
+		Technique: "typestate over the reader loop (size test before every read, after every append, never between a read and the next parse), guard dominance, compiler BCE report backed by the difference-constraint bounds prover; evaluation of the id order over the finite domain of field orderings (nine cases); tested-then-dropped error (contradiction) check and interprocedural lock-pairing check over the packages the property is anchored in",
 		Explanation: "Statically decidable part of 'packet reassembly depends only on the byte stream and is memory-bounded': " +
 			"(R1) memory bound: every transport read in the reader loop is preceded by a passed size test of the unparsed buffer against the configured maximum; the buffer grows only behind a free-space test and to a bounded function of its own size and the configured maximum; every append to the packet is covered by a size test (after it, or of len(pkt.Data)+len(fr.Data) before appending exactly fr.Data) before the next frame is parsed; a zero maximum is replaced by a positive constant; " +
 			"(R2) control marking and discard-on-new-id: the packet's control flag is or-ed with each frame's, a frame with a new id resets the packet to that frame's id/kind/control with empty data; " +
